@@ -10,7 +10,7 @@
 Values are only moved in all three regions (the block inverse of CPR is a callee: recorded, not computed), so the
 value model is "32-bit token" (MODEL_INT32 without arithmetic).  All units are `unwound` (bounded stand-ins)."""
 import re
-from cxc.extract import Cut, Rule, UF, Loop, IdxRule, ExtractError, match_close, _split_args
+from cxc.extract import Cut, Rule, UF, UFArgs, Loop, IdxRule, ExtractError, match_close, _split_args
 from cxc.unit import Unit
 from _common import CRS_MEMBERS_C, CALL_RULES, crs_member_cuts, member_rules
 from _relax_common import VEC_PRELUDE
@@ -426,6 +426,10 @@ static _Bool post_blocks_sorted(void)
 }
 """
 
+# measured: the 64-bit index types make the propositional reduction of these regions about twice as large and minisat 2-4x slower than kissat
+INT32IDX = {'CXC_COL_T': 'int', 'CXC_PTR_T': 'int'}
+KISSAT = ['--external-sat-solver', 'kissat']
+A_INST32 = 'A-inst: quick variants instantiate crs<V, Col, Ptr> with Col = Ptr = int (the region\'s own index arithmetic -- idx, heads, loop counters -- stays ptrdiff_t / size_t as written)'
 SCHUR_ITER = [
     Rule(r'for\s*\(auto k = (?:backend::)?row_begin\(\*K, i\); k; \+\+k\)', 'for(ptrdiff_t k = K->ptr[i]; k < K->ptr[i + 1]; ++k)', 2,
          why='R-iter (A-iter)', early=True),
@@ -510,9 +514,12 @@ void h_schur_blocks(void)
 }
 """,
     entry='h_schur_blocks', mode='unwound', unwind='max(ZMAX,NMAX)+3', model='int32',
-    variants=[{'NMAX': 4, 'ZMAX': 6}, {'NMAX': 3, 'ZMAX': 4, 'DENSE': 1}], thorough_variants=[{'NMAX': 5, 'ZMAX': 7}, {'NMAX': 4, 'ZMAX': 5, 'DENSE': 1}],
-    bound_text='n <= 4, nnz <= 6, every pressure mask (any char values), any pattern (unsorted rows, duplicates, empty rows), values symbolic tokens (thorough: n <= 5, nnz <= 7)',
-    assumptions=A_SETUP + ['A-pmask: prm.pmask has exactly n entries (pmask_size == rows(K)); the constructor does not check it',
+    variants=[dict(INT32IDX, NMAX=3, ZMAX=3, DENSE=1), dict(INT32IDX, NMAX=3, ZMAX=3)],
+    thorough_variants=[dict(INT32IDX, NMAX=2, ZMAX=4, DENSE=1), {'NMAX': 3, 'ZMAX': 3, 'DENSE': 1}, {'NMAX': 3, 'ZMAX': 3}],
+    solver=KISSAT,
+    bound_text='whole region end to end: n <= 3, nnz <= 3 (dense-view statement and entry-layout statement; measured: n <= 3, nnz <= 4 does not finish in 280 s; '
+               'the bound n <= 4, nnz <= 6 is covered step by step by schur_init_counts + schur_init_fill_row), every pressure mask (any char values), any pattern (unsorted rows, duplicates, empty rows), values symbolic tokens (thorough: n <= 5, nnz <= 7)',
+    assumptions=A_SETUP + ['A-pmask: prm.pmask has exactly n entries (pmask_size == rows(K)); the constructor does not check it', A_INST32,
                            'A-ctor: np and nu enter init() as 0 (member initialisers np(0), nu(0) of both constructors)'],
     replay='composite', timeout=300, witness=wit("K") + ["w_pmask"],
     not_decided=['the adjust_p corrections of Kpp and the simplec_dia / approx_schur diagonals (floating point)', 'copy to the backend (copy_matrix)',
@@ -520,6 +527,203 @@ void h_schur_blocks(void)
 )
 schur_blocks.unwindset = [(r'for\(ptrdiff_t i = 0; i < \(\(ptrdiff_t\)\(self->n\)\)', 'NMAX+1'), (r'for\(size_t i = 0; i < self->n;', 'NMAX+1'),
                           (r'for\(ptrdiff_t k = K->ptr', 'ZMAX+1')]
+
+
+# ---- the same region step by step (larger bound): (a) idx + sizes + counting pass + scan + allocation, (b) the body of the
+# ---- filling pass for ONE arbitrary row.  The postcondition of (a) is literally (the same C predicates) the precondition of (b).
+SCHUR_STEP_SPEC = r"""
+/* S-rows(i): row idx[i] of the two blocks of i's row class has exactly as many cells as row i of K has entries of that column class */
+static _Bool spec_row_lengths_at(const schur *self, const crs *K, const ptrdiff_t *idx, crs *const blk[2][2], size_t i)
+{
+  for (int c = 0; c < 2; ++c) {
+    const crs *M = blk[self->prm.pmask[i] ? 1 : 0][c];
+    ptrdiff_t cnt = 0;
+    for (size_t q = 0; q < CAP_NNZ; ++q)
+      if ((ptrdiff_t)q >= K->ptr[i] && (ptrdiff_t)q < K->ptr[i + 1] && (self->prm.pmask[K->col[q]] ? 1 : 0) == c) cnt++;
+    if (M->ptr[idx[i] + 1] - M->ptr[idx[i]] != cnt) return 0;
+  }
+  return 1;
+}
+/* S-shape: Kuu nu x nu, Kup nu x np, Kpu np x nu, Kpp np x np; monotone row pointers from 0; nnz == ptr[rows]; arrays allocated.
+ * (columns are not constrained: the arrays are fresh) */
+static _Bool spec_block_shapes(crs *const blk[2][2], size_t nu, size_t np)
+{
+  const size_t dim[2] = { nu, np };
+  for (int a = 0; a < 2; ++a) for (int b = 0; b < 2; ++b) {
+    const crs *M = blk[a][b];
+    if (M == 0 || M->ptr == 0 || M->col == 0 || M->val == 0) return 0;
+    if (!(M->nrows == dim[a] && M->ncols == dim[b] && M->ptr[0] == 0)) return 0;
+    for (size_t r = 0; r < NMAX; ++r) if (r < M->nrows) { if (!(M->ptr[r] <= M->ptr[r + 1])) return 0; }
+    if (!(M->ptr[M->nrows] >= 0 && (size_t)M->ptr[M->nrows] <= ZMAX && M->nnz == (size_t)M->ptr[M->nrows])) return 0;
+  }
+  return 1;
+}
+"""
+counts_cut = Cut(
+    SCHUR, r'// Extract matrix subblocks\.\n', kind='region', begin_exclusive=True,
+    end=r'^#pragma omp parallel for\b.*?(?=^#pragma omp parallel for\b)', end_inclusive=True, flags=re.S | re.M,
+    rules=[Rule(r'for\s*\(auto k = (?:backend::)?row_begin\(\*K, i\); k; \+\+k\)', 'for(ptrdiff_t k = K->ptr[i]; k < K->ptr[i + 1]; ++k)', 1, why='R-iter (A-iter)', early=True),
+           Rule(r'\bk\.col\(\)', 'K->col[k]', '+', why='R-iter', early=True)]
+    + [NEW_MATRIX(4)] + CALL_RULES + member_rules(['prm', 'n', 'np', 'nu']) + [
+        Rule(r'std_vector<ptrdiff_t> idx\(([^;]+)\);', r'loc_vec idx; const size_t idx_n = vec_init(idx, \1, 0);', 1, why='R-vec-local: std::vector<ptrdiff_t>(n) is zero-filled'),
+        IdxRule(r'idx', 'idx_n', '+'), PMASK_IDX,
+        IdxRule(r'(Kuu|Kup|Kpu|Kpp)->ptr', r'\1->nrows + 1', '+'),
+        IdxRule(r'K->col', 'nonzeros(*K)', '+'), IdxRule(r'K->ptr', 'K->nrows + 1', '+'),
+    ])
+schur_counts = Unit(
+    name='schur_init_counts', props=['C18', 'C10'],
+    functions=['preconditioner::schur_pressure_correction::init(K, bprm) [idx renumbering, block sizes, counting pass, row pointers]',
+               'crs::set_size', 'crs::scan_row_sizes', 'crs::set_nonzeros'],
+    desc='first half of the sub-block extraction: idx is the rank within the class, the four blocks get their shapes, and their row pointers are '
+         'the prefix sums of the per-row, per-class entry counts of K (for every pressure mask)',
+    cuts=dict(crs_member_cuts(), body=counts_cut),
+    template=SCHUR_HDR + SCHUR_STEP_SPEC + r"""
+WITNESS_CRS(K)
+crs *g_blk[2][2]; ptrdiff_t g_idx[CAP_LOC]; size_t g_idx_n;
+/* contract (enforced by the harness below):
+ *   requires  K square well-formed (any pattern); pmask has n flags; np == nu == 0
+ *   ensures   spec_idx (idx, nu, np); S-shape; S-rows(i) for every row i; K, pmask unchanged            */
+static void f_schur_counts(schur *self, const crs *K)
+{
+/*@CUT:body@*/
+  g_blk[0][0] = Kuu; g_blk[0][1] = Kup; g_blk[1][0] = Kpu; g_blk[1][1] = Kpp;
+  g_idx_n = idx_n; for (size_t i = 0; i < CAP_LOC; ++i) g_idx[i] = idx[i];
+}
+void h_schur_counts(void)
+{
+  crs *K = crs_input_tok();
+  schur me; schur *self = &me;
+  REQUIRES(crs_wf(K, NMAX, NMAX, ZMAX) && K->nrows == K->ncols);
+  schur_input(self, K->nrows); self->np = 0; self->nu = 0;
+  MIRROR_CRS(K, K);
+  crs_snap s; crs_snapshot(K, &s);
+  const schur me0 = me;
+  f_schur_counts(self, K);
+  ENSURES(!g_cap_exceeded && !g_thrown, "bound artefact: allocation within verification capacity; no exception");
+  const _Bool okidx = g_idx_n == K->nrows && self->nu + self->np == K->nrows && spec_idx(self->prm.pmask, K->nrows, g_idx, self->nu, self->np);
+  ENSURES(okidx, "schur init: idx[i] is the rank of unknown i within its class (pressure / flow), nu and np are the class sizes");
+  const _Bool shapes = spec_block_shapes(g_blk, self->nu, self->np);
+  ENSURES(shapes, "schur init: Kuu is nu x nu, Kup nu x np, Kpu np x nu, Kpp np x np; row pointers monotone from 0, nnz == ptr[rows], arrays allocated");
+  if (okidx && shapes) {
+    _Bool rows = 1;
+    for (size_t i = 0; i < NMAX; ++i) if (i < K->nrows && !spec_row_lengths_at(self, K, g_idx, g_blk, i)) rows = 0;
+    ENSURES(rows, "schur init: row idx[i] of each sub-block has exactly as many cells as row i of K has entries in that column class");
+    ENSURES(g_blk[0][0]->nnz + g_blk[0][1]->nnz + g_blk[1][0]->nnz + g_blk[1][1]->nnz == (size_t)K->ptr[K->nrows],
+            "schur init: the four sub-blocks have room for exactly nnz(K) entries");
+  }
+  _Bool mask_same = self->prm.pmask_n == me0.prm.pmask_n && self->n == me0.n;
+  for (size_t i = 0; i < CAP_MASK; ++i) if (self->prm.pmask[i] != me0.prm.pmask[i]) mask_same = 0;
+  ENSURES(crs_unchanged(K, &s) && mask_same, "frame: K, pmask and n are not modified");
+  CANARY("harness.end");
+}
+""",
+    entry='h_schur_counts', mode='unwound', unwind='max(ZMAX,NMAX)+3', model='int32',
+    variants=[dict(INT32IDX, NMAX=4, ZMAX=6)], thorough_variants=[dict(INT32IDX, NMAX=5, ZMAX=7), {'NMAX': 4, 'ZMAX': 5}],
+    bound_text='n <= 4, nnz <= 6, every pressure mask (any char values), any pattern, Col = Ptr = int (thorough: n <= 5, nnz <= 7; Col = Ptr = ptrdiff_t at n <= 4, nnz <= 5)',
+    solver=KISSAT,
+    assumptions=A_SETUP + ['A-pmask: prm.pmask has exactly n entries (pmask_size == rows(K)); the constructor does not check it', A_INST32,
+                           'A-ctor: np and nu enter init() as 0 (member initialisers np(0), nu(0) of both constructors)'],
+    replay='composite', timeout=300, witness=wit('K') + ['w_pmask'],
+)
+schur_counts.unwindset = [(r'for\(ptrdiff_t i = 0; i < \(\(ptrdiff_t\)\(self->n\)\)', 'NMAX+1'), (r'for\(size_t i = 0; i < self->n;', 'NMAX+1'),
+                          (r'for\(ptrdiff_t k = K->ptr', 'ZMAX+1')]
+
+fill_cut = Cut(
+    SCHUR, r'for\(ptrdiff_t i = 0; i < static_cast<ptrdiff_t>\(n\); \+\+i\)\s*(?=\{)', nth=1,
+    rules=[Rule(r'for\s*\(auto k = (?:backend::)?row_begin\(\*K, i\); k; \+\+k\)', 'for(ptrdiff_t k = K->ptr[i]; k < K->ptr[i + 1]; ++k)', 1, why='R-iter (A-iter)', early=True),
+           Rule(r'\bk\.col\(\)', 'K->col[k]', '+', why='R-iter', early=True),
+           Rule(r'\bk\.value\(\)', 'K->val[k]', '+', why='R-iter', early=True)]
+    + member_rules(['prm', 'n', 'np', 'nu']) + [
+        IdxRule(r'idx', 'idx_n', '+'), PMASK_IDX,
+        IdxRule(r'(Kuu|Kup|Kpu|Kpp)->ptr', r'\1->nrows + 1', '+'),
+        IdxRule(r'(Kuu|Kup|Kpu|Kpp)->(?:col|val)', r'\1->nnz', '+'),
+        IdxRule(r'K->col|K->val', 'nonzeros(*K)', '+'), IdxRule(r'K->ptr', 'K->nrows + 1', '+'),
+    ])
+schur_fill = Unit(
+    name='schur_init_fill_row', props=['C18', 'C10'],
+    functions=['preconditioner::schur_pressure_correction::init(K, bprm) [filling pass: loop body for one row]'],
+    desc='second half of the sub-block extraction, for an ARBITRARY row i: every entry (i,j) of K lands in block[pmask[i]][pmask[j]], row idx[i], '
+         'at its rank among the entries of that column class, with column idx[j] and its value; nothing outside the two row segments of row idx[i] is written '
+         '(the iterations of the parallel loop are independent)',
+    cuts=dict(body=fill_cut),
+    template=SCHUR_HDR + SCHUR_STEP_SPEC + r"""
+WITNESS_CRS(K)
+ptrdiff_t w_idx[CAP_LOC]; ptrdiff_t w_i;
+/* contract (enforced by the harness below):
+ *   requires  K square well-formed; pmask has n flags; spec_idx(idx, nu, np), S-shape, S-rows(i)   (= postcondition of schur_init_counts);
+ *             0 <= i < n; the col / val arrays of the blocks hold anything
+ *   assigns   the cells [ptr[idx[i]], ptr[idx[i]+1]) of col / val of the two blocks of i's row class
+ *   ensures   the entry at position e of row i of K sits at ptr[idx[i]] + rank(e) of block[pmask[i]][pmask[col[e]]] with column idx[col[e]]
+ *             and value val[e], rank(e) = number of earlier entries of row i in the same column class; every other cell, all row
+ *             pointers and sizes of the blocks, K, pmask and idx are unchanged                                              */
+static void f_schur_fill_row(schur *self, const crs *K, const ptrdiff_t *idx, size_t idx_n, crs *Kuu, crs *Kup, crs *Kpu, crs *Kpp, ptrdiff_t i)
+{
+/*@CUT:body@*/
+}
+static _Bool post_row_layout(const schur *self, const crs *K, const ptrdiff_t *idx, crs *const blk[2][2], size_t i)
+{
+  ptrdiff_t rank[2] = { 0, 0 };
+  for (size_t e = 0; e < CAP_NNZ; ++e) if ((ptrdiff_t)e >= K->ptr[i] && (ptrdiff_t)e < K->ptr[i + 1]) {
+    const size_t j = (size_t)K->col[e];
+    const int pj = self->prm.pmask[j] ? 1 : 0;
+    const crs *M = blk[self->prm.pmask[i] ? 1 : 0][pj];
+    const ptrdiff_t pos = M->ptr[idx[i]] + rank[pj];
+    if (!(pos < M->ptr[idx[i] + 1] && M->col[pos] == idx[j] && M->val[pos] == K->val[e])) return 0;
+    rank[pj]++;
+  }
+  return 1;
+}
+void h_schur_fill_row(void)
+{
+  crs *K = crs_input_tok();
+  schur me; schur *self = &me;
+  REQUIRES(crs_wf(K, NMAX, NMAX, ZMAX) && K->nrows == K->ncols);
+  const size_t n = K->nrows;
+  size_t nu = nondet_uchar() & IMASK, np = nondet_uchar() & IMASK;
+  schur_input(self, n); self->nu = nu; self->np = np;
+  loc_vec idx;
+  for (size_t q = 0; q < CAP_LOC; ++q) { idx[q] = nondet_uchar() & IMASK; w_idx[q] = idx[q]; }
+  REQUIRES(nu + np == n && spec_idx(self->prm.pmask, n, idx, nu, np));
+  crs *blk[2][2]; crs_snap s0[2][2];
+  for (int a = 0; a < 2; ++a) for (int b = 0; b < 2; ++b) blk[a][b] = crs_input_tok();
+  REQUIRES(spec_block_shapes(blk, nu, np));
+  const size_t i = nondet_uchar() & IMASK;
+  REQUIRES(i < n && spec_row_lengths_at(self, K, idx, blk, i));
+  MIRROR_CRS(K, K); w_i = (ptrdiff_t)i;
+  crs_snap s; crs_snapshot(K, &s);
+  for (int a = 0; a < 2; ++a) for (int b = 0; b < 2; ++b) crs_snapshot(blk[a][b], &s0[a][b]);
+  const schur me0 = me;
+  f_schur_fill_row(self, K, idx, n, blk[0][0], blk[0][1], blk[1][0], blk[1][1], (ptrdiff_t)i);
+  ENSURES(post_row_layout(self, K, idx, blk, i),
+          "schur init: every entry (i,j) of row i of K sits in block[pmask[i]][pmask[j]], row idx[i], at its rank within the column class, with column idx[j] and its value");
+  _Bool frame = 1;
+  for (int a = 0; a < 2; ++a) for (int b = 0; b < 2; ++b) {
+    const crs *M = blk[a][b];
+    const _Bool mine = (a == (self->prm.pmask[i] ? 1 : 0));
+    for (size_t q = 0; q < CAP_NNZ; ++q) {
+      const _Bool inseg = mine && (ptrdiff_t)q >= s0[a][b].ptr[idx[i]] && (ptrdiff_t)q < s0[a][b].ptr[idx[i] + 1];
+      if (inseg) { M->col[q] = s0[a][b].col[q]; M->val[q] = s0[a][b].val[q]; }    /* the row's own segment: compared by post_row_layout above */
+    }
+    if (!crs_unchanged(M, &s0[a][b])) frame = 0;
+  }
+  ENSURES(frame, "frame: the loop body for row i writes only the cells [ptr[idx[i]], ptr[idx[i]+1]) of the two blocks of i's row class (iterations are independent)");
+  _Bool same = self->prm.pmask_n == me0.prm.pmask_n && self->n == me0.n && self->nu == me0.nu && self->np == me0.np;
+  for (size_t q = 0; q < CAP_MASK; ++q) if (self->prm.pmask[q] != me0.prm.pmask[q]) same = 0;
+  for (size_t q = 0; q < CAP_LOC; ++q) if (idx[q] != w_idx[q]) same = 0;
+  ENSURES(crs_unchanged(K, &s) && same, "frame: K, pmask, idx, n, nu, np are not modified");
+  CANARY("harness.end");
+}
+""",
+    entry='h_schur_fill_row', mode='unwound', unwind='max(ZMAX,NMAX)+3', model='int32',
+    variants=[dict(INT32IDX, NMAX=4, ZMAX=6)], thorough_variants=[dict(INT32IDX, NMAX=5, ZMAX=7), {'NMAX': 4, 'ZMAX': 5}],
+    bound_text='n <= 4, nnz <= 6, every pressure mask, any pattern, an arbitrary row, arbitrary prior content of the blocks, Col = Ptr = int (thorough: n <= 5, nnz <= 7; Col = Ptr = ptrdiff_t at n <= 4, nnz <= 5)',
+    solver=KISSAT,
+    assumptions=A_SETUP + ['A-pmask: prm.pmask has exactly n entries (pmask_size == rows(K)); the constructor does not check it', A_INST32,
+                           'A-steps: idx, the block shapes and row pointers are what the first half computed (postcondition of schur_init_counts, the same C predicates); '
+                           'the rows of the parallel loop compose because each iteration writes only its own row segments (frame obligation) and the segments of different rows are disjoint (monotone row pointers)'],
+    replay='composite', timeout=300, witness=wit('K') + ['w_pmask', 'w_idx', 'w_i'],
+)
+schur_fill.unwindset = [(r'for\(ptrdiff_t k = K->ptr', 'ZMAX+1')]
 
 scatter_cut = Cut(
     SCHUR, r'// Scatter/Gather matrices\n', kind='region', begin_exclusive=True, end=r'this->x2u = backend_type::copy_matrix',
@@ -589,12 +793,260 @@ void h_schur_scatter(void)
 }
 """,
     entry='h_schur_scatter', mode='unwound', unwind='NMAX+3', model='int32',
-    variants=[{'NMAX': 5, 'ZMAX': 5}], thorough_variants=[{'NMAX': 7, 'ZMAX': 7}],
-    bound_text='n <= 5 (thorough: n <= 7), every pressure mask (any char values)',
-    assumptions=A_SETUP + ['A-pmask: prm.pmask has exactly n entries (pmask_size == rows(K)); the constructor does not check it',
+    variants=[dict(INT32IDX, NMAX=5, ZMAX=5)], thorough_variants=[dict(INT32IDX, NMAX=6, ZMAX=6), {'NMAX': 4, 'ZMAX': 4}],
+    bound_text='n <= 5 (thorough: n <= 6; Col = Ptr = ptrdiff_t at n <= 4), every pressure mask (any char values), Col = Ptr = int',
+    solver=KISSAT,
+    assumptions=A_SETUP + ['A-pmask: prm.pmask has exactly n entries (pmask_size == rows(K)); the constructor does not check it', A_INST32,
                            'A-idx: idx, nu, np are what the extraction region computed (spec_idx is proved as its postcondition by schur_init_blocks)'],
     replay='composite', timeout=600, witness=['w_pmask', 'w_idx', 'w_n'],
     not_decided=['copy to the backend (copy_matrix)'],
 )
 
-UNITS = [cpr_fsp, schur_blocks, schur_scatter]
+
+# =====================================================================================================
+# 3. deflated_solver: project() (A-DEF2 projection), apply(), operator()
+# =====================================================================================================
+DEFL = 'amgcl/deflated_solver.hpp'
+DEFL_T = r"""
+#define MODEL_UF 1
+#define CXC_UF_T unsigned short     /* token width: EUF small-model argument (fewer than 2^16 distinct terms occur) */
+#include "amgcl_c.h"
+#include <stdlib.h>
+int g_thrown;
+#ifndef NV
+#define NV 3
+#endif
+typedef V scalar_type;
+unsigned short nondet_ushort(void);
+static V nondet_V(void) { return nondet_ushort(); }
+/* typestate view of the backend objects (as in prelude/orch_trace.h) with the callees as recording stubs */
+typedef struct vec { _Bool defined; unsigned long version; int id; } vec;
+typedef struct mat { int id; } mat;
+typedef struct obj { int id; } obj;
+typedef struct defl_params { int nvec; } defl_params;
+/* members of deflated_solver<> in declaration order: prm; n, P, S, r, Z, E, d (d is mutable scratch) */
+typedef struct deflated {
+  defl_params prm; size_t n; obj P; mat Pmat; obj S; vec *r;
+  vec *Z[NV]; size_t Z_n; V E[NV * NV]; size_t E_n; V d[NV]; size_t d_n;
+} deflated;
+enum { T_NONE = 0, T_RESIDUAL, T_INNER, T_LINCOMB, T_APPLY, T_SOLVE };
+typedef struct ev { int kind, o, v1, v2, v3; unsigned long ver; V s; } ev;
+#define NEV (NV + 6)
+ev g_ev[NEV]; unsigned g_nev;
+V g_lc_c[NV]; int g_lc_v[NV]; size_t g_lc_n; V g_lc_alpha;      /* arguments of the (single expected) lin_comb call */
+V g_solve_ret;
+#ifdef CXC_CANARY
+#define TYPESTATE(c, msg) ((void)0)
+#else
+#define TYPESTATE(c, msg) __CPROVER_assert(c, "typestate: " msg)
+#endif
+static void push(int kind, int o, int v1, int v2, int v3, unsigned long ver, V s)
+{
+  if (g_nev < NEV) { g_ev[g_nev].kind = kind; g_ev[g_nev].o = o; g_ev[g_nev].v1 = v1; g_ev[g_nev].v2 = v2; g_ev[g_nev].v3 = v3; g_ev[g_nev].ver = ver; g_ev[g_nev].s = s; }
+  g_nev++;
+}
+/* r = f - A x */
+static void tr_residual(const vec *f, const mat *A, const vec *x, vec *r)
+{
+  TYPESTATE(f->defined && x->defined, "residual reads a defined right-hand side and a defined x");
+  push(T_RESIDUAL, A->id, f->id, x->id, r->id, x->version, 0);
+  r->defined = 1; r->version++;
+}
+static V tr_inner(const vec *x, const vec *y)
+{
+  TYPESTATE(x->defined && y->defined, "inner_product reads defined vectors");
+  const V t = nondet_V();       /* the value of <x, y>: an opaque token */
+  push(T_INNER, 0, x->id, y->id, 0, y->version, t);
+  return t;
+}
+/* y = sum_j c_j v_j + alpha y */
+static void tr_lin_comb(size_t n, const V *c, size_t c_n, vec *const *v, size_t v_n, V alpha, vec *y)
+{
+  TYPESTATE(n <= c_n && n <= v_n, "lin_comb: n coefficients and n vectors exist");
+  TYPESTATE(y->defined || math_is_zero(alpha), "lin_comb reads y unless alpha is zero");
+  for (size_t q = 0; q < NV; ++q) if (q < n && q < c_n && q < v_n) {
+    TYPESTATE(v[q]->defined, "lin_comb reads defined vectors");
+    g_lc_c[q] = c[q]; g_lc_v[q] = v[q]->id;
+  }
+  g_lc_n = n; g_lc_alpha = alpha;
+  push(T_LINCOMB, 0, 0, 0, y->id, y->version, alpha);
+  y->defined = 1; y->version++;
+}
+/* x = P f */
+static void tr_apply(const obj *P, const vec *f, vec *x)
+{
+  TYPESTATE(f->defined, "the preconditioner reads a defined right-hand side");
+  push(T_APPLY, P->id, f->id, x->id, 0, f->version, 0);
+  x->defined = 1; x->version++;
+}
+typedef struct solve_result { size_t iters; V resid; } solve_result;
+/* S(A | P-system, precond, rhs, x): the iterative solver, x is initial approximation and result */
+static solve_result tr_solve(const obj *S, int Aid, const void *precond, const vec *rhs, vec *x)
+{
+  TYPESTATE(rhs->defined && x->defined, "the iterative solver reads rhs and the initial approximation x");
+  push(T_SOLVE, S->id, Aid, rhs->id, x->id, x->version, 0);
+  (void)precond;
+  x->version++;
+  solve_result res; res.iters = nondet_ushort(); res.resid = g_solve_ret;
+  return res;
+}
+static void std_fill(V *first, V *last, V v) { for (V *p = first; p != last; ++p) *p = v; }
+#define residual(f, A, x, r) tr_residual(&(f), (A), &(x), &(r))
+#define inner_product(x, y) tr_inner(&(x), &(y))
+#define lin_comb(n, c, v, alpha, y) tr_lin_comb((size_t)(n), (c), c##_n_of, (v), v##_n_of, alpha, &(y))
+/* std::vector members passed as whole objects carry their logical length */
+#define self_d self->d
+#define self_d_n_of self->d_n
+#define self_E self->E
+#define self_E_n_of self->E_n
+#define self_Z self->Z
+#define self_Z_n_of self->Z_n
+#define REQUIRES_(c) __CPROVER_assume(c)
+#ifdef CXC_CANARY
+#define ENSURES(c, msg) ((void)0)
+#else
+#define ENSURES(c, msg) __CPROVER_assert(c, "ensures: " msg)
+#endif
+
+static void f_project(deflated *self, const vec *b_p, vec *x_p)
+{
+#define b (*b_p)
+#define x (*x_p)
+/*@CUT:project@*/
+#undef b
+#undef x
+}
+#define project(b_, x_) f_project(self, &(b_), &(x_))
+static void f_apply(deflated *self, const vec *rhs_p, vec *x_p)
+{
+#define rhs (*rhs_p)
+#define x (*x_p)
+/*@CUT:apply@*/
+#undef rhs
+#undef x
+}
+static solve_result f_solve(deflated *self, const vec *rhs_p, vec *x_p)
+{
+#define rhs (*rhs_p)
+#define x (*x_p)
+/*@CUT:solve@*/
+#undef rhs
+#undef x
+}
+static solve_result f_solve_A(deflated *self, const mat *A_p, const vec *rhs_p, vec *x_p)
+{
+#define A (*A_p)
+#define rhs (*rhs_p)
+#define x (*x_p)
+/*@CUT:solveA@*/
+#undef A
+#undef rhs
+#undef x
+}
+int w_nvec, w_mode;
+/* contract (enforced by the harness below), MODE 0 project(b, x), 1 apply(rhs, x), 2 operator()(rhs, x), 3 operator()(A, rhs, x):
+ *   requires  1 <= nvec <= NV; Z[0..nvec) defined; E has nvec^2 cells; b defined; x defined (apply: x is output only);
+ *             r and d hold whatever earlier calls left (scratch)
+ *   ensures   project = exactly  r = b - A x;  f_j = <Z_j, r> (j ascending, Z_j first);  d_i = sum_j E[i*nvec+j] * f_j folded from zero, j ascending;
+ *             lin_comb(nvec, d, Z, 1, x), i.e.  x += sum_i d_i Z_i  ("x += Z^T E^{-1} Z (b - Ax)", E holding the inverted Z A Z^T);
+ *             apply = P.apply(rhs, x) then that projection;  operator() = that projection, then the iterative solver preconditioned by
+ *             *this started from the projected x, its result returned;  E, Z, prm unchanged                                          */
+void h_deflated(void)
+{
+  deflated me; deflated *self = &me;
+  int nvec = nondet_ushort() & 7;
+  REQUIRES_(1 <= nvec && nvec <= NV);
+  vec zs[NV], r, b, x; mat A;
+  self->prm.nvec = nvec; self->n = nondet_ushort(); self->P.id = 31; self->Pmat.id = 11; self->S.id = 32; A.id = 12;
+  self->r = &r; r.id = 3; r.version = nondet_ushort(); r.defined = nondet_ushort() & 1;
+  b.id = 1; b.defined = 1; b.version = nondet_ushort();
+  x.id = 2; x.version = nondet_ushort(); x.defined = (MODE == 1) ? (nondet_ushort() & 1) : 1;
+  V E0[NV * NV];
+  for (int q = 0; q < NV; ++q) { zs[q].id = 20 + q; zs[q].defined = 1; zs[q].version = nondet_ushort(); self->Z[q] = &zs[q]; self->d[q] = nondet_V(); }
+  for (int q = 0; q < NV * NV; ++q) { self->E[q] = nondet_V(); E0[q] = self->E[q]; }
+  self->Z_n = (size_t)nvec; self->E_n = (size_t)nvec * nvec; self->d_n = (size_t)nvec;
+  REQUIRES_(math_is_zero(MATH_zero(V)) && !math_is_zero(UF_CONST(1)));
+  w_nvec = nvec; w_mode = MODE;
+  const unsigned long xv0 = x.version;
+  solve_result res; res.iters = 0; res.resid = 0;
+  g_solve_ret = nondet_V();
+  if (MODE == 0) f_project(self, &b, &x);
+  else if (MODE == 1) f_apply(self, &b, &x);
+  else if (MODE == 2) res = f_solve(self, &b, &x);
+  else res = f_solve_A(self, &A, &b, &x);
+  const unsigned base = (MODE == 1) ? 1 : 0;      /* events before the projection */
+  const unsigned tail = (MODE >= 2) ? 1 : 0;      /* events after it */
+  ENSURES(g_nev == base + (unsigned)nvec + 2 + tail, "deflated_solver: exactly one residual, nvec inner products, one lin_comb (plus P.apply before / the solver after)");
+  if (MODE == 1) ENSURES(g_ev[0].kind == T_APPLY && g_ev[0].o == 31 && g_ev[0].v1 == 1 && g_ev[0].v2 == 2, "apply: x = P rhs first");
+  ENSURES(g_ev[base].kind == T_RESIDUAL && g_ev[base].o == 11 && g_ev[base].v1 == 1 && g_ev[base].v2 == 2 && g_ev[base].v3 == 3 && g_ev[base].ver == xv0 + base,
+          "projection: r = b - A x with the system matrix of the preconditioner and the incoming x");
+  _Bool ips = 1, coefs = 1, vecs = 1;
+  for (int j = 0; j < NV; ++j) if (j < nvec) {
+    const ev e = g_ev[base + 1 + j];
+    if (!(e.kind == T_INNER && e.v1 == 20 + j && e.v2 == 3)) ips = 0;
+  }
+  ENSURES(ips, "projection: f_j = inner_product(Z_j, r) for j = 0 .. nvec-1 in order, deflation vector first, on the residual just computed");
+  for (int i = 0; i < NV; ++i) if (i < nvec) {
+    V acc = MATH_zero(V);
+    for (int j = 0; j < NV; ++j) if (j < nvec) acc = UF_ADD(acc, UF_MUL(E0[i * nvec + j], g_ev[base + 1 + j].s));
+    if (g_lc_c[i] != acc) coefs = 0;
+    if (g_lc_v[i] != 20 + i) vecs = 0;
+  }
+  const ev lc = g_ev[base + 1 + nvec];
+  ENSURES(lc.kind == T_LINCOMB && lc.v3 == 2 && g_lc_n == (size_t)nvec && g_lc_alpha == UF_CONST(1) && vecs,
+          "projection: x = sum_i d_i Z_i + 1 * x over exactly the nvec deflation vectors in order");
+  ENSURES(coefs, "projection: d_i = sum_j E[i*nvec + j] * f_j, folded from zero with j ascending (d = E f, E = inverse of Z A Z^T)");
+  if (MODE >= 2) {
+    const ev sv = g_ev[base + 2 + nvec];
+    ENSURES(sv.kind == T_SOLVE && sv.o == 32 && sv.v1 == (MODE == 3 ? 12 : 0) && sv.v2 == 1 && sv.v3 == 2 && sv.ver == xv0 + 1,
+            "operator(): the iterative solver runs after the projection, on rhs and the projected x (with the given matrix or the preconditioner's)");
+    ENSURES(res.resid == g_solve_ret, "operator(): the solver's (iterations, residual) pair is returned");
+  }
+  _Bool same = self->prm.nvec == nvec && self->Z_n == (size_t)nvec && self->E_n == (size_t)nvec * nvec && b.defined && b.id == 1;
+  for (int q = 0; q < NV * NV; ++q) if (self->E[q] != E0[q]) same = 0;
+  for (int q = 0; q < NV; ++q) if (self->Z[q] != &zs[q] || !zs[q].defined) same = 0;
+  ENSURES(same && x.defined, "frame: E, Z, nvec and the right-hand side are not modified; x is defined on return");
+  CANARY("harness.end");
+}
+"""
+DEFL_MEMBERS = member_rules(['prm', 'n', 'P', 'S', 'r', 'Z', 'E', 'd'])
+project_cut = Cut(
+    DEFL, r'void project\(const Vec1 &b, Vec2 &x\) const\s*(?=\{)',
+    rules=[Rule(r'^(\s*)([\w\[\]>.*+-]+) ([-+*/])= (?P<e>[^;]+);', r'\1\2 = \2 \3 (\g<e>);', '+', why='R-compound a op= e -> a = a op (e)'),
+           Rule(r'\bauto (\w+) = inner_product', r'const V \1 = inner_product', None, why='R-auto (scalar)')]
+    + DEFL_MEMBERS + [
+        Rule(r'self->P\.system_matrix\(\)', '(&self->Pmat)', None, why='member call: the matrix the preconditioner was built for'),
+        Rule(r'self->d\.begin\(\)', 'self->d', None, why='R-vec'), Rule(r'self->d\.end\(\)', '(self->d + self->d_n)', None, why='R-vec'),
+        Rule(r'\blin_comb\((?P<n>[^,]+), self->(\w+), self->(\w+),', r'lin_comb(\g<n>, self_\2, self_\3,', None, why='std::vector arguments carry their logical length'),
+        UFArgs(r'lin_comb', None, skip=(0, 1, 2, 4)),
+        IdxRule(r'self->Z', 'self->Z_n', None), IdxRule(r'self->E', 'self->E_n', None), IdxRule(r'self->d', 'self->d_n', None),
+    ],
+    uf=[UF(r'self->d\[[^;=]*\]\s*=\s*(?P<e>[^;]+);', None)])
+
+apply_cut = Cut(DEFL, r'void apply\(const Vec1 &rhs, Vec2 &&x\) const\s*(?=\{)',
+                rules=DEFL_MEMBERS + [Rule(r'self->P\.apply\((\w+), (\w+)\);', r'tr_apply(&self->P, &(\1), &(\2));', None, why='member call -> C call')])
+solve_cut = Cut(DEFL, r'std::tuple<size_t, scalar_type> operator\(\)\(const Vec1 &rhs, Vec2 &&x\) const\s*(?=\{)',
+                rules=DEFL_MEMBERS + [Rule(r'\bS\(\*this, (\w+), (\w+)\)', r'tr_solve(&self->S, 0, self, &(\1), &(\2))', None, why='functor call -> C call')])
+solveA_cut = Cut(DEFL, r'std::tuple<size_t, scalar_type> operator\(\)\(\s*const Matrix &A, const Vec1 &rhs, Vec2 &&x\) const\s*(?=\{)',
+                 rules=DEFL_MEMBERS + [Rule(r'\bS\((\w+), \*this, (\w+), (\w+)\)', r'tr_solve(&self->S, (\1).id, self, &(\2), &(\3))', None, why='functor call -> C call')])
+deflated = Unit(
+    name='deflated_project', props=['C18', 'C15', 'C10'],
+    functions=['deflated_solver::project(b, x)', 'deflated_solver::apply(rhs, x)', 'deflated_solver::operator()(rhs, x)', 'deflated_solver::operator()(A, rhs, x)'],
+    desc='A-DEF2 projection as an exact call sequence: r = b - A x; f_j = <Z_j, r>; d = E f (row-major E, folded from zero); x += sum_i d_i Z_i; '
+         'apply() = P.apply then the projection; operator() = the projection, then the iterative solver preconditioned by *this on the projected x',
+    cuts={'project': project_cut, 'apply': apply_cut, 'solve': solve_cut, 'solveA': solveA_cut},
+    template=DEFL_T, entry='h_deflated', mode='unwound', unwind='NV*NV+2', model='uf',
+    variants=[{'NV': 3, 'MODE': m} for m in (0, 1, 2, 3)],
+    thorough_variants=[{'NV': 5, 'MODE': m} for m in (0, 1, 2, 3)],
+    bound_text='1 <= nvec <= 3 deflation vectors (thorough: <= 5); everything else (vector contents, E, scalars) symbolic / uninterpreted',
+    assumptions=['A-bound: nothing is claimed beyond the stated number of deflation vectors',
+                 'A-abs: backend::residual / inner_product / lin_comb, P.apply and the iterative solver S are recording stubs with typestate obligations (their functional contracts are C07 / C01 / C02)',
+                 'A-uf: scalars are opaque 16-bit tokens, + and * uninterpreted (the statement holds for every scalar type); only is_zero(0) and !is_zero(1) are assumed',
+                 'A-E: E holds the inverse of Z A Z^T as init() left it (dense inverse: floating point, not under contract)',
+                 'A-vec: std::vector members d, E, Z are fixed-capacity arrays with a logical length'],
+    replay=None, timeout=300,
+    not_decided=['init(): E = (Z A Z^T)^-1 (dense inverse in floating point)', 'orthogonality of the projected residual to the deflation vectors (real-number statement given exact E)',
+                 'that the solver returns the solution of the original system (convergence)', 'more deflation vectors than the bound'],
+)
+
+UNITS = [cpr_fsp, schur_counts, schur_fill, schur_blocks, schur_scatter, deflated]
